@@ -106,7 +106,7 @@ CONSTANTS = {
          r"pub fn read_footer_length\(buf: \[u8; (10)\]\) -> Result<usize, ArrowError> \{\s*if buf\[4\.\.\] != super::ARROW_MAGIC \{\s*return Err\(.{0,200}?let footer_len = i32::from_le_bytes\(buf\[\.\.4\]\.try_into\(\)\.unwrap\(\)\);"
          r"\s*footer_len\s*\.try_into\(\)\s*\.map_err\(", "int"),
         ("SHAPE_FILE_READER_SEEKS", _IR,
-         r"let footer_len = read_footer_length\(buffer\)\?;.{0,120}?reader\.seek\(SeekFrom::End\(-(10) - footer_len as i64\)\)\?;\s*reader\.read_exact\(&mut footer_data\)\?;", "int"),
+         r"let footer_len = read_footer_length\(buffer\)\?;\s*if footer_len as u64 > trailer_start \{\s*return Err\(.{0,300}?reader\.seek\(SeekFrom::End\(-(10) - footer_len as i64\)\)\?;\s*reader\.read_exact\(&mut footer_data\)\?;", "int"),
         ("SHAPE_FOOTER_TAIL_MAGIC", _PT,
          r"let encrypted_footer = if magic == PARQUET_MAGIC_ENCR_FOOTER \{\s*true\s*\} else if magic == PARQUET_MAGIC \{\s*false\s*\} else \{\s*return Err\(.*?(\d+)", "int"),
         ("SHAPE_STREAM_DECODER_FINISH", "arrow-ipc/src/reader/stream.rs",
@@ -122,6 +122,28 @@ CONSTANTS = {
          r"pub fn finish\(&self\) -> Result<Tape<'_>, ArrowError> \{\s*match self\.stack\.last\(\) \{\s*None => \{\}\s*Some\(DecoderState::TopLevelList\) => \{\}\s*Some\(state\) => \{\s*return Err\(ArrowError::JsonError\(format!\(\s*\"Truncated record whilst reading.*?(\d+)", "int"),
         ("SHAPE_AVRO_READ_EOF", "arrow-avro/src/reader/mod.rs",
          r"let buf = self\.reader\.fill_buf\(\)\?;\s*if buf\.is_empty\(\) \{\s*self\.finished = true;\s*break 'outer;\s*\}.{0,200}?let consumed = self\.block_decoder\.decode\(buf\)\?;.*?(\d+)", "int"),
+        # ---- failure state of the writers ("after a failed write no later finish reports success")
+        ("SHAPE_IPC_FILE_FAILED_GUARDS", _IW,
+         r"Cannot write record batch to file writer as it is closed" + _NW + r"self\.check_not_failed\(\)\?;.{0,400}?"
+         r"\.inspect_err\(\|e\| self\.failed = matches!\(e, ArrowError::IoError\(_, _\)\)\)\?;.{0,2500}?Cannot write footer to file writer as it is closed" + _NW +
+         r"self\.check_not_failed\(\)\?;(?:\s*//[^\n]*)*\s*self\.failed = true;" + _NW + r"self\.writer\.write_eos.{0,3000}?"
+         r"fn check_not_failed\(&self\) -> Result<\(\), ArrowError> \{\s*if self\.failed \{\s*return Err\(ArrowError::IpcError\(\s*\"Cannot write to file writer as an earlier write failed.*?(\d+)", "int"),
+        ("SHAPE_IPC_STREAM_FAILED_GUARDS", _IW,
+         r"Cannot write record batch to stream writer as it is closed" + _NW + r"self\.check_not_failed\(\)\?;.{0,400}?"
+         r"\.inspect_err\(\|e\| self\.failed = matches!\(e, ArrowError::IoError\(_, _\)\)\)\?;.{0,1500}?Cannot write footer to stream writer as it is closed" + _NW +
+         r"self\.check_not_failed\(\)\?;(?:\s*//[^\n]*)*\s*self\.failed = true;" + _NW + r"self\.writer\.write_eos.{0,1500}?"
+         r"fn check_not_failed\(&self\) -> Result<\(\), ArrowError> \{\s*if self\.failed \{\s*return Err\(ArrowError::IpcError\(\s*\"Cannot write to stream writer as an earlier write failed.*?(\d+)", "int"),
+        ("SHAPE_JSON_FAILED_GUARDS", "arrow-json/src/writer/mod.rs",
+         r"self\.writer\s*\.write_all\(&buffer\)\s*\.inspect_err\(\|_\| self\.failed = true\)\?;\s*buffer\.clear\(\);.{0,400}?self\.writer\s*\.write_all\(&buffer\)\s*\.inspect_err\(\|_\| self\.failed = true\)\?;"
+         r".{0,900}?pub fn finish\(&mut self\) -> Result<\(\), ArrowError> \{\s*if self\.failed \{\s*return Err\(ArrowError::JsonError\(.*?(\d+)", "int"),
+        ("SHAPE_AVRO_FAILED_GUARDS", "arrow-avro/src/writer/mod.rs",
+         r"pub fn write\(&mut self, batch: &RecordBatch\) -> Result<\(\), AvroError> \{.{0,400}?self\.check_not_failed\(\)\?;\s*let res = match self\.format\.sync_marker\(\) \{.{0,200}?\};"
+         r"\s*res\.inspect_err\(\|e\| self\.failed = matches!\(e, AvroError::IoError\(_, _\)\)\).{0,900}?pub fn finish\(&mut self\) -> Result<\(\), AvroError> \{\s*self\.check_not_failed\(\)\?;"
+         r".{0,900}?fn check_not_failed\(&self\) -> Result<\(\), AvroError> \{\s*if self\.failed \{\s*return Err\(.*?(\d+)", "int"),
+        ("SHAPE_ASYNC_FAILED_GUARDS", "parquet/src/arrow/async_writer/mod.rs",
+         r"pub async fn finish\(&mut self\) -> Result<ParquetMetaData> \{\s*let metadata = self\.sync_writer\.finish\(\)\?;(?:\s*//[^\n]*)*\s*self\.do_write\(\)\.await\?;\s*self\.async_writer\.complete\(\)\.await\?;"
+         r".{0,1500}?async fn do_write\(&mut self\) -> Result<\(\)> \{\s*if self\.failed \{\s*return Err\(.{0,200}?let buffer = mem::take\(self\.sync_writer\.inner_mut\(\)\);"
+         r"\s*if let Err\(e\) = self\.async_writer\.write\(Bytes::from\(buffer\)\)\.await \{\s*self\.failed = true;\s*return Err\(.*?(\d+)", "int"),
         # ---- IPC
         ("CONTINUATION_BYTE", _IL,
          r"const\s+CONTINUATION_MARKER\s*:\s*\[u8;\s*4\]\s*=\s*\[\s*(0x[0-9a-fA-F]+|\d+)\s*;\s*4\s*\]\s*;", "int"),
@@ -129,8 +151,8 @@ CONSTANTS = {
         ("ARROW_MAGIC_LEN", _IL, r"const\s+ARROW_MAGIC\s*:\s*\[u8;\s*(\d+)\]\s*=\s*\*b\"ARROW\d\"\s*;", "int"),
         ("ARROW_MAGIC_DIGIT", _IL, r"const\s+ARROW_MAGIC\s*:\s*\[u8;\s*\d+\]\s*=\s*\*b\"ARROW(\d)\"\s*;", "int"),
         # FileReaderBuilder::build: `let mut buffer = [0; 10]; reader.seek(SeekFrom::End(-10))`
-        ("IPC_TRAILER_SIZE", _IR, r"let\s+mut\s+buffer\s*=\s*\[0;\s*(\d+)\]\s*;\s*reader\.seek\(SeekFrom::End\(-\d+\)\)\?\s*;", "int"),
-        ("IPC_TRAILER_SEEK", _IR, r"let\s+mut\s+buffer\s*=\s*\[0;\s*\d+\]\s*;\s*reader\.seek\(SeekFrom::End\(-(\d+)\)\)\?\s*;", "int"),
+        ("IPC_TRAILER_SIZE", _IR, r"let\s+mut\s+buffer\s*=\s*\[0;\s*(\d+)\]\s*;\s*let\s+trailer_start\s*=\s*reader\.seek\(SeekFrom::End\(-\d+\)\)\?\s*;", "int"),
+        ("IPC_TRAILER_SEEK", _IR, r"let\s+mut\s+buffer\s*=\s*\[0;\s*\d+\]\s*;\s*let\s+trailer_start\s*=\s*reader\.seek\(SeekFrom::End\(-(\d+)\)\)\?\s*;", "int"),
         # read_footer_length: magic = buf[4..], length = i32 LE of buf[..4]
         ("IPC_TRAILER_MAGIC_OFFSET", _IR, r"pub\s+fn\s+read_footer_length\(buf:\s*\[u8;\s*10\]\).{0,80}?if\s+buf\[(\d+)\.\.\]\s*!=\s*super::ARROW_MAGIC", "int"),
         ("IPC_TRAILER_LEN_BYTES", _IR, r"let\s+footer_len\s*=\s*i32::from_le_bytes\(buf\[\.\.(\d+)\]\.try_into\(\)\.unwrap\(\)\)\s*;", "int"),
